@@ -138,6 +138,37 @@ def run_case(d):
                 raise
             return {"order": int(o), "Rxx": hexl(Rxx), "Rxx_shape": list(np.shape(Rxx)), "coef": hexl(coef),
                     "coef_shape": list(np.shape(coef)), "ecov": hexl(ecov), "crit": hexl(table)}
+        if k == "ga":
+            import nitime.timeseries as ts
+            x = arr(d["x"])
+            kw = {}
+            if d["ij"] is not None:
+                kw["ij"] = [tuple(p) for p in d["ij"]]
+            if d["order"] is not None:
+                kw["order"] = d["order"]
+            G = gr.GrangerAnalyzer(ts.TimeSeries(x, sampling_rate=1.0), max_order=d["max_order"], **kw)
+            got = {}
+            try:
+                for name in d["read"]:                      # the attributes, in the seeded order
+                    got[name] = getattr(G, name)
+            except ValueError as e:
+                if d["order"] is None and "did not converge" in str(e):
+                    return {"err": "ValueError", "noconv": True}     # no model is reported, nothing is claimed
+                raise
+            pairs = {}
+            for (i, j) in list(got["model_coef"].keys()):
+                Rxx = np.asarray(got["autocov"][i, j])
+                coef = np.asarray(got["model_coef"][i, j])
+                pairs["%d,%d" % (i, j)] = {"order": int(got["order"][i, j]), "Rxx": hexl(Rxx), "Rxx_shape": list(Rxx.shape),
+                                           "coef": hexl(coef), "coef_shape": list(coef.shape),
+                                           "ecov": hexl(got["error_cov"][i, j])}
+            o = {"pairs": pairs, "ij": [[int(i), int(j)] for i, j in G.ij]}
+            # criterion table of the pair that also goes through K
+            i, j = d["kpair"]
+            _, table = make_criterion({"criterion": "default", "max_order": d["max_order"], "order": d["order"]},
+                                      ut, alg, x[i], x[j])
+            o["crit"] = hexl(table)
+            return o
         if k == "gen":
             a, cov = arr(d["a"]).reshape(d["a_shape"]), arr(d["cov"])
             np.random.seed(d["np_seed"])
@@ -191,6 +222,8 @@ def case_coq(d, o):
     k = d["kind"]
     if "err" in o and not (k == "fit" and o.get("noconv")):
         return None
+    if k == "ga" and o.get("noconv"):
+        return None
     if d.get("nok"):
         return None      # long record, oracle only (keeps the kernel evaluation affordable)
     if k == "lwr":
@@ -235,6 +268,23 @@ def case_coq(d, o):
         exact = top <= 3
         return "(KFit %s %s %s %s %s %s %s)" % (blit(exact), fvec(arr(d["x1"])), fvec(arr(d["x2"])), order,
                                                nlit(d["max_order"]), fvec(tab), out)
+    if k == "ga":
+        # the analyzer's entry for the pair (i, j) must be the model's fit_model on (x_i, x_j)
+        i, j = d["kpair"]
+        e = o["pairs"].get("%d,%d" % (i, j))
+        tab = arr(o["crit"])
+        if e is None or not all_finite(tab):
+            return None
+        x = arr(d["x"])
+        Rxx = arr(e["Rxx"]).reshape(e["Rxx_shape"])
+        coef = arr(e["coef"]).reshape(e["coef_shape"])
+        if Rxx.ndim != 3 or coef.ndim != 3 or not all_finite(Rxx, coef, arr(e["ecov"])):
+            return None
+        order = "None" if d["order"] is None else "(Some %s)" % nlit(d["order"])
+        out = "(FitOk %s %s %s %s %s)" % (nlit(e["order"]), nlit(Rxx.shape[2]), f3(Rxx), fmats(coef), fmat(arr(e["ecov"])))
+        top = d["order"] if d["order"] is not None else max(0, d["max_order"] - 2)
+        return "(KFit %s %s %s %s %s %s %s)" % (blit(top <= 3), fvec(x[i]), fvec(x[j]), order, nlit(d["max_order"]),
+                                               fvec(tab), out)
     if k == "gen":
         a = arr(d["a"]).reshape(d["a_shape"])
         mar, nz = arr(o["mar"]).reshape(o["mar_shape"]), arr(o["nz"]).reshape(o["nz_shape"])
@@ -308,7 +358,10 @@ def lagged_mean_f(x, nl):
 def oracle(d, o):
     k = d["kind"]
     key = "C11/" + {"lwr": "lwr_recursion", "ld": "AR_est_LD", "cov": "crosscov_vector", "mar": "MAR_est_LWR",
-                    "fit": "fit_model", "gen": "generate_mar", "crit": "information_criterion"}[k]
+                    "fit": "fit_model", "gen": "generate_mar", "crit": "information_criterion",
+                    "ga": "GrangerAnalyzer"}[k]
+    if k == "ga" and o.get("noconv"):
+        return None
     if "err" in o and not (k == "fit" and o.get("noconv")):
         return Fail(key + "/exception", "raised %s: %s" % (o["err"], o.get("msg")), o["err"], "a result")
     if k == "lwr":
@@ -398,6 +451,52 @@ def oracle(d, o):
             return Fail(key + "/Rxx", "returned covariance is not the lagged average of the data at order+1 lags (dev %.3e)" % dev,
                         float(dev), 0)
         return yw_check(key, R, coef, ecov, what="(against the data's lagged averages) ")
+    if k == "ga":
+        import nitime.analysis.granger as gr
+        x = arr(d["x"])
+        P = o["pairs"]
+        want_ij = d["ij"] if d["ij"] is not None else o["ij"]
+        for (i, j) in want_ij:
+            e = P.get("%d,%d" % (i, j))
+            tag = "pair (%d,%d) of ij=%s: " % (i, j, d["ij"])
+            if e is None:
+                return Fail(key + "/missing", tag + "no model stored", None, None)
+            Rxx = arr(e["Rxx"]).reshape(e["Rxx_shape"])
+            coef = arr(e["coef"]).reshape(e["coef_shape"])
+            ecov = arr(e["ecov"])
+            order = e["order"]
+            if d["order"] is not None and order != d["order"]:
+                return Fail(key + "/order", tag + "order %d reported for requested order %d" % (order, d["order"]), order, d["order"])
+            if coef.shape != (order, 2, 2) or Rxx.shape != (2, 2, order + 1) or ecov.shape != (2, 2):
+                return Fail(key + "/order", tag + "reported order %d with coefficient shape %s, autocov shape %s"
+                            % (order, coef.shape, Rxx.shape), [list(coef.shape), list(Rxx.shape)], [[order, 2, 2], [2, 2, order + 1]])
+            xp = x[[i, j]]
+            R = lagged_mean_f(xp, order + 1)
+            dev = np.abs(R - Rxx.transpose(2, 0, 1)).max()
+            if dev > 1e-10 * (1 + np.abs(R).max()):
+                return Fail(key + "/autocov", tag + "autocov is not the lagged average of (x_%d, x_%d) (dev %.3e)" % (i, j, dev),
+                            float(dev), 0)
+            f = yw_check(key, Rxx.transpose(2, 0, 1), coef, ecov, what=tag)
+            if f:
+                return f
+            kw = {} if d["order"] is None else {"order": d["order"]}
+            o2, R2, c2, e2 = gr.fit_model(x[i], x[j], max_order=d["max_order"], **kw)
+            if o2 != order or np.shape(c2) != coef.shape or np.abs(c2 - coef).max(initial=0) > 1e-9 * (1 + np.abs(coef).max(initial=0)) \
+                    or np.abs(e2 - ecov).max() > 1e-9 * (1 + np.abs(ecov).max()) or np.abs(R2 - Rxx).max() > 1e-10 * (1 + np.abs(R2).max()):
+                return Fail(key + "/fit_model", tag + "differs from fit_model(x_%d, x_%d)" % (i, j), None, None)
+            r = P.get("%d,%d" % (j, i))
+            if r is not None:
+                # relabelling the two channels permutes everything (C11_lwr_perm_equivariant)
+                Rr = arr(r["Rxx"]).reshape(r["Rxx_shape"])
+                cr = arr(r["coef"]).reshape(r["coef_shape"])
+                er = arr(r["ecov"])
+                ok = (r["order"] == order and cr.shape == coef.shape and Rr.shape == Rxx.shape
+                      and np.abs(cr[:, ::-1, ::-1] - coef).max(initial=0) <= 1e-8 * (1 + np.abs(coef).max(initial=0))
+                      and np.abs(er[::-1, ::-1] - ecov).max() <= 1e-8 * (1 + np.abs(ecov).max())
+                      and np.abs(Rr[::-1, ::-1, :] - Rxx).max() <= 1e-10 * (1 + np.abs(Rxx).max()))
+                if not ok:
+                    return Fail(key + "/permutation", tag + "is not the channel-swapped model of pair (%d,%d)" % (j, i), None, None)
+        return None
     if k == "gen":
         a = arr(d["a"]).reshape(d["a_shape"])
         nc, N = a.shape[1], d["N"]
@@ -647,6 +746,40 @@ def long_calls(ctx, rs):
     return out
 
 
+def gen_ga(ctx, rs):
+    """GrangerAnalyzer model attributes for ij lists with both orientations, repeats, shuffles"""
+    nc = int(rs.randint(2, 5))
+    N = int(rs.choice([32, 48, 64, 96, 128]))
+    x = coloured(rs, nc, N)
+    allp = [(i, j) for i in range(nc) for j in range(nc) if i != j]
+    r = rs.rand()
+    if r < 0.1:
+        ij = None
+    elif r < 0.55:
+        i, j = allp[rs.randint(len(allp))]
+        ij = [(i, j), (j, i)]
+        extra = [allp[k] for k in rs.permutation(len(allp))[:rs.randint(0, 3)]]
+        ij = ij + extra
+        if rs.rand() < 0.5:
+            ij = [ij[k] for k in rs.permutation(len(ij))]
+    else:
+        ij = [allp[k] for k in rs.permutation(len(allp))[:rs.randint(1, len(allp) + 1)]]
+        if rs.rand() < 0.3:
+            ij = ij + [ij[0]]                      # a repeated pair
+    order = None if rs.rand() < 0.4 else int(rs.randint(1, 4))
+    read = ["order", "autocov", "model_coef", "error_cov"]
+    read = [read[k] for k in rs.permutation(4)]
+    d = {"kind": "ga", "x": hexl(x), "ij": None if ij is None else [[int(i), int(j)] for i, j in ij], "order": order,
+         "max_order": int(rs.choice([6, 10, 10])), "read": read}
+    if ij is None:
+        d["kpair"] = [1, 0]
+    else:
+        # prefer the second-listed orientation of a pair listed both ways
+        second = [p for n, p in enumerate(ij) if (p[1], p[0]) in ij[:n]]
+        d["kpair"] = [int(v) for v in (second[0] if second else ij[-1])]
+    return d
+
+
 def coloured(rs, nc, N, bits=8):
     B = stable_var(rs, nc, int(rs.randint(1, 3)), rs.uniform(0.3, 0.8))
     x = simulate(rs, B, rand_cov(rs, nc), N, burn=50)
@@ -718,6 +851,11 @@ def klass0(d):
         return "cov/%s" % ("auto" if d.get("auto") else "cross")
     if k == "mar":
         return "mar/order%d" % d["order"]
+    if k == "ga":
+        ij = d["ij"]
+        both = ij is not None and any([p[1], p[0]] in ij for p in ij)
+        return "ga/%s/%s" % ("default-ij" if ij is None else ("both-orientations" if both else "one-orientation"),
+                             "fixed" if d["order"] is not None else "select")
     return k
 
 
@@ -748,7 +886,7 @@ def run(ctx):
     rs = np.random.RandomState(ctx.rng.getrandbits(32))
     plan = [(gen_lwr, ctx.scale(90, 500)), (gen_lwr_free, ctx.scale(20, 80)), (gen_ld, ctx.scale(20, 80)),
             (gen_cov, ctx.scale(40, 200)), (gen_mar, ctx.scale(30, 150)), (gen_fit, ctx.scale(40, 200)),
-            (gen_gen, ctx.scale(30, 150)), (gen_crit, ctx.scale(30, 100))]
+            (gen_gen, ctx.scale(30, 150)), (gen_crit, ctx.scale(30, 100)), (gen_ga, ctx.scale(30, 120))]
     calls = corpus_calls()
     for g, n in plan:
         calls += [g(ctx, rs) for _ in range(n)]
@@ -780,7 +918,8 @@ def run(ctx):
                          "criteria, max_order 0..10) on bivariate coloured data; generate_mar with seeded noise; criteria; "
                          "in every run integer-valued long records N in {513..4096, incl. 1025, 2049, primes} through "
                          "crosscov/autocov, MAR_est_LWR, fit_model, generate_mar (exact integer lagged sums as oracle; a few "
-                         "also in K). "
+                         "also in K); GrangerAnalyzer order/autocov/model_coef/error_cov for ij lists with both orientations, "
+                         "repeated pairs, shuffled orders and attribute read orders. "
                          "non-trivial = the call returned a value")
     return ctx.finish(
         trusted=["numpy/scipy kernels used by the anchored code (dot, linalg.inv, linalg.det, log, mean, "
